@@ -14,7 +14,7 @@ CLAIMED = {
          "The store honours the documented lookup contract (C05 owns the shipped stores)." + TRUST,
          SIM + "seeded ceremony histories, RP account database + signature verification, reference model for eligibility", "DESIGN.md §6 C03"),
  "C04": ("exploration",
-         "The finite product of the property (2688 CTAP-level + 252 WebAuthn-level cells) is enumerated completely, one simulated run per cell with seeded nuisance parameters; the user-validation outcomes are the injected faults; the oracle reads the user-seam and store-seam history (consent precedes every write and every success, flags equal what was reported, error cases leave the store untouched, shown credential signs) and runs a twin world without the matching credential to compare outcomes while consent is missing. One assertion cell run in six has a second authenticator registering a newer credential for the RP on the shared store while the prompt is open. Complete over the product, sampled over nuisance parameters.",
+         "The finite product of the property (2688 CTAP-level + 252 WebAuthn-level cells) is enumerated completely, one simulated run per cell with seeded nuisance parameters; the user-validation outcomes are the injected faults; the oracle reads the user-seam and store-seam history (consent precedes every write and every success, flags equal what was reported, error cases leave the store untouched, shown credential signs) and runs a twin world without the matching credential to compare outcomes while consent is missing. Seeded variants of a cell: a second authenticator registering a newer credential for the RP on the shared store while the prompt is open; a verification capability that changed after the authenticator's first getInfo; a store with an item type of its own in which some matching entries do not convert into a passkey. Complete over the product, sampled over nuisance parameters.",
          "The user-validation step is the only source of consent (the library implements no PIN protocol)." + TRUST,
          SIM + "complete enumeration of the consent product, user-seam fault plan, history oracle and twin-world comparison", "DESIGN.md §6 C04"),
  "C05": ("exploration",
@@ -46,8 +46,8 @@ CLAIMED = {
          "Bounds: single allocation <= 256 x len + 2 MiB, peak heap <= 512 x len + 16 MiB, <= 0.25 s + 1 us per input byte of CPU time per case (thread CPU time, so machine load cannot turn into a verdict; a watchdog kills a worker after 10 s of CPU). The watchdog is the only measured (not computed) quantity in the simulator.",
          SIM + "simulated link with systematic wire-fault sweep into every decoder, crash-isolated workers with counting allocator and watchdog", "DESIGN.md §6 C15"),
  "C16": ("exploration",
-         "HID world: 2-4 channels write through the real Message::new/Message::send into recording endpoints, a seeded merger decides whose packet the one real ChannelHandler receives next (each channel's order kept); an independent packet decoder checks the wire format and the receiver must return each message exactly once, on its last packet, unaltered. Short streams are expanded into all interleavings in the thorough tier.",
-         "No loss/duplication/corruption in this family (the property does not speak of them). Channel-id byte order on the wire is not judged.",
+         "HID world: 2-4 channels write through the real Message::new/Message::send into recording endpoints, a seeded merger decides whose packet the one real ChannelHandler receives next (each channel's order kept); an independent packet decoder checks the wire format and the receiver must return each message exactly once, on its last packet, unaltered; received messages are sent again and must produce the packets they arrived in; one channel in eight meets an endpoint that refuses one write (interrupted / would block / broken pipe): send must report it and leave a prefix of the fault-free stream. Short streams are expanded into all interleavings in the thorough tier.",
+         "No loss/duplication/corruption of packets on the bus in this family (the property does not speak of them); endpoint write errors are injected on the sending side. Channel-id byte order on the wire is not judged.",
          SIM + "simulated HID bus with seeded (and for short streams exhaustive) packet interleaving, independent wire decoder", "DESIGN.md §6 C16"),
  "C17": ("exploration",
          "A simulated U2F host frames raw extended-length requests, the real parser, U2fApi and encoders answer; seeded histories of registrations and authentications with arbitrary handles, counters and presence bytes on the reference store and MemoryStore, with store errors and cancellations on odd indexes; signatures are verified independently and encodings compared with independently built ones.",
@@ -58,7 +58,7 @@ CLAIMED = {
          "With the same random byte stream key generation and RFC 6979 ECDSA are deterministic, so equal behaviour means byte-identical responses." + TRUST,
          SIM + "twin-world refinement check under identical seeded seams, crash-isolated", "DESIGN.md §6 C18"),
  "C19": ("exploration",
-         "Seeded schedule search: 2-3 real Authenticators on one Arc<tokio::sync::Mutex|RwLock<store>> under a deterministic executor that decides every interleaving at every suspension point; invariants over the recorded history (no deadlock, no lost credential, distinct counters incl. silent up=false assertions, max = stored). Sampled interleavings, plus every interleaving of small two-actor scenarios (1 base in 1500).",
+         "Seeded schedule search: 2-3 real Authenticators on one Arc<tokio::sync::Mutex|RwLock<store>> under a deterministic executor that decides every interleaving at every suspension point; invariants over the recorded history (no deadlock, no lost credential, distinct counters incl. silent up=false assertions and values spent by assertions that fail after their counter write, max = stored), with one-shot store errors under the shared lock in a share of the runs. Sampled interleavings, plus every interleaving of small two-actor scenarios (1 base in 1500).",
          "Executions on a multi-threaded runtime are equivalent to interleavings at await granularity. One genuine defect is listed in known_findings.jsonl (stale counter write-back) and reported as KNOWN-FINDING; any other clause is a VIOLATION." + TRUST,
          SIM + "seeded scheduler over real tokio::sync lock wrappers, history invariants", "DESIGN.md §6 C19"),
 }
